@@ -20,8 +20,8 @@ import (
 type jdoc struct {
 	id    string
 	k     int
-	a, b  int64  // two int fields (rating/pages ...)
-	fk    int    // k of the parent, -1 none
+	a, b  int64 // two int fields (rating/pages ...)
+	fk    int   // k of the parent, -1 none
 	alive bool
 }
 
